@@ -35,7 +35,8 @@ class EngineCase:
     functions = (TENSOR_BACKWARD, "synapgrad.tensor.Tensor.zero_", "synapgrad.tensor.Tensor.grad (setter)", "synapgrad.tensor.Tensor.is_leaf")
     expect = "engine"
 
-    def __init__(self, leaf_flags, interior, root, retain=(), preexisting=False):
+    def __init__(self, leaf_flags, interior, root, retain=(), preexisting=False, twice=False):
+        self.twice = twice                  # a second backward call from the same root: every op contributes once PER CALL
         self.leaf_flags = tuple(leaf_flags)
         self.interior = tuple(tuple(c) for c in interior)
         self.root = root
@@ -43,7 +44,7 @@ class EngineCase:
         self.preexisting = preexisting      # leaves start with an existing symbolic gradient buffer
         self.name = "Tensor.backward[engine]"
         self.key = {"leaf_requires_grad": list(leaf_flags), "children": [list(c) for c in interior], "root": root,
-                    "retain_grad": list(retain), "preexisting_leaf_grads": preexisting}
+                    "retain_grad": list(retain), "preexisting_leaf_grads": preexisting, "second_backward": twice}
 
     def run(self, seed):
         res = {"name": self.name, "key": self.key, "obligations": 0, "discharged": 0, "backends": {}, "paths": 1, "solver_s": 0.0,
@@ -159,6 +160,19 @@ class EngineCase:
                             if c == i:
                                 acc = acc + J[(m, k)] * adjoint(m)
                 return acc
+            if self.twice:
+                calls.clear()
+                g2 = np.empty((), dtype=object)
+                g2[()] = S(sess.var("g2"))
+                try:
+                    root.backward(Tensor(g2))
+                except Exception as e:
+                    ob("completes", False, "second backward raised %s: %s" % (type(e).__name__, e))
+                    return
+                for i in range(L, n_nodes):
+                    expected = 1 if (i in reach and req[i]) else 0
+                    ob("each_op_once_per_call", calls.count(i) == expected,
+                       "second backward call: grad_fn of node %d invoked %d times (expected %d) in graph %s" % (i, calls.count(i), expected, self.key))
             for i in range(n_nodes):
                 t = nodes[i]
                 is_leaf = i < L
@@ -179,6 +193,10 @@ class EngineCase:
                     ob("leaf_grad", False, "node %d has no gradient after backward" % i)
                     continue
                 exp = adjoint(i)
+                if self.twice:
+                    # leaves accumulate both calls; the root and retained interiors hold the last call's gradient only
+                    second = _subst_g(exp, sess)
+                    exp = (exp + second) if is_leaf else second
                 if i in old:
                     exp = old[i] + exp
                 got = S.of(np.asarray(t._grad, dtype=object)[()])
@@ -197,6 +215,12 @@ class EngineCase:
                                             "reproduced": True, "solver": v.backend, "answer": v.status,
                                             "replay": {"graph": self.key, "model": v.model, "engine_term": str(got.term()), "spec_term": str(exp.term()),
                                                        "how": "build the graph with Tensor(children=...) and stub grad_fn c._grad += J*n._grad, call backward"}})
+
+
+def _subst_g(expr, sess):
+    """the same adjoint with the second call's upstream gradient g2 in place of g"""
+    g, g2 = sess.var("g"), sess.var("g2")
+    return S(z3.substitute(expr.n, (g, g2)), z3.substitute(expr.d, (g, g2)))
 
 
 def enumerate_dags(n_leaves, n_interior, ordered, max_fanin):
@@ -230,6 +254,20 @@ def engine_cases(tier, seed):
                 flagsets = [fl for fl in itertools.product([True, False], repeat=L) if any(fl)]
                 for fl in flagsets:
                     cases.append(EngineCase(fl, dag, L + n_int - 1))
+    # a second backward call on every 2-leaf / <=2-interior graph, with and without retained interiors
+    for n_int in (1, 2):
+        for dag in enumerate_dags(2, n_int, ordered=False, max_fanin=2):
+            used = set(c for ch in dag for c in ch)
+            if any((2 + j) not in used for j in range(n_int - 1)):
+                continue
+            for retain in ((), (2,)):
+                for fl in ((True, True), (True, False)):
+                    cases.append(EngineCase(fl, dag, 2 + n_int - 1, retain=retain, twice=True))
+    for dag in list(enumerate_dags(2, 3, ordered=False, max_fanin=2))[:: (7 if tier == "quick" else 1)]:
+        used = set(c for ch in dag for c in ch)
+        if any((2 + j) not in used for j in range(2)):
+            continue
+        cases.append(EngineCase((True, True), dag, 4, retain=(2, 3), twice=True))
     # fan-in 3 with repeats, 3 leaves, every root choice, retain_grad, pre-existing buffers
     extra = []
     for dag in enumerate_dags(3, 2, ordered=False, max_fanin=3):
@@ -319,6 +357,22 @@ def pattern_programs():
             cols = F.unbind(T["b"], 1)
             return F.stack([rows[1] * rows[0], rows[0]], 0).sum(0) * cols[2].sum() + F.concat([cols[0], cols[1], cols[0]], 0).mean()
         add("multi_output_ops", [A(fa), Bb(fb)], multi_output, requires_grad=[fa, fb])
+    # joins with operands that do not require grad placed BEFORE ones that do (constant / detached / frozen branches)
+    for fl in [(False, True, True), (True, False, True), (False, False, True), (False, True, False)]:
+        for dim in (0, 1, -1):
+            def joins(T, K, dim=dim):
+                parts = [T["a"], T["b"] * 2.0, T["d"]]
+                st = F.stack(parts, dim)
+                ct = F.concat([T["d"], T["a"] + T["b"], T["b"]], dim if dim != -1 else 1)
+                sl = F.unbind(st, dim)             # distinct weights per slice, so that a mis-paired slice cannot cancel
+                return sl[0] * 1.0 + sl[1] * 2.0 + sl[2] * 3.0 + F.unbind(ct, 0)[1].sum() + ct.mean()
+            add("joins_with_mixed_requires_grad", [A(fl[0]), Bb(fl[1]), Leaf("d", (2, 3), "any", fl[2])], joins, requires_grad=list(fl), dim=dim)
+    # a tensor that is unbound AND consumed directly by other ops in the same graph
+    def unbind_fanout(T, K):
+        rows = F.unbind(T["a"], 0)
+        cols = F.unbind(T["a"], 1)
+        return rows[0] * rows[1] + cols[2].sum() * T["c"] + F.sum(T["a"] * T["b"], 0) + F.unbind(T["a"], 0)[1]
+    add("unbind_fanout", [A(), Bb(), C()], unbind_fanout)
     # deep diamond ladder (number of paths doubles at every rung)
     def ladder(T, K):
         x = T["a"]
